@@ -80,6 +80,10 @@ func zzvC11Builds() map[string]ref.Build {
 	}
 }
 
+// zzvC11Bucketed: chart names under which bucketed counters (name:bucket) are drawn; their in-config flag is
+// per prefix, coarser than the uploader's per-bucket verdict, so only "sent => flagged present" is required.
+var zzvC11Bucketed = map[string]bool{"c": true, "d": true, "f": true}
+
 var zzvC11Names = []string{"c", "c:a", "d:a", "d:c", "d", "zz", "e", "f:x", "s", "s\nmain.f:+1,+0x1", "t\nmain.f:+1,+0x1", "c\nmain.f:+1,+0x1", "s\nmain.g:+2,+0x2\nmain.f:+1,+0x1"}
 
 func TestVerifC11View(t *testing.T) {
@@ -87,7 +91,7 @@ func TestVerifC11View(t *testing.T) {
 	res := vrep.New("C11", p)
 	defer res.Guard()
 	base, _ := vrep.Scratch("c11v")
-	res.Rule = "stage 1: configurations (GOOS/GOARCH/Go-version lists, bucketed counters, stacks incl. a stack named like a counter) x X in {2^-52, 0.5, 0} x file sets (the approved build and every build differing from it in exactly one of the five fields, each with approved / unapproved / bucket-near-miss counters and stacks with approved / unapproved / counter-named heads): the real viewer and the real uploader run on the same directory and their verdicts are compared item by item; classes = (build kind, verdict pairs)"
+	res.Rule = "stage 1: configurations (GOOS/GOARCH/Go-version lists, bucketed counters, stacks incl. a stack named like a counter) x X in {2^-52, 0.5, 0} x file sets (the approved build and every build differing from it in exactly one of the five fields, each with approved / unapproved / bucket-near-miss counters and stacks with approved / unapproved / counter-named heads): the real viewer (counter-file view, pending-report summaries, chart flags) and the real uploader run on the same directory and their verdicts are compared item by item; classes = (build kind, verdict pairs)"
 	res.Assumptions = []string{"all rates are 1 so that sampling does not enter (the viewer cannot know X)", "stage 2 replays every uploader report and single-item mutations through the real upload handler"}
 	stageDir := os.Getenv("VERIF_SCRATCH")
 	if stageDir == "" {
@@ -130,6 +134,13 @@ func TestVerifC11View(t *testing.T) {
 				vfiles, verr := files(d.TD.LocalDir(), cfg)
 				if verr != nil {
 					fail("viewer-failed", "files: %v", verr)
+				}
+				// The viewer's other two descriptions of the same data: the pending-report summaries and
+				// the chart flags ("... is not present in the telemetry config").
+				pend := pending(vfiles, cfg)
+				chs, cerr := charts(pend, cfg)
+				if cerr != nil {
+					fail("viewer-failed", "charts: %v", cerr)
 				}
 				rerr, pan := d.Run(start)
 				res.Evaluations++
@@ -208,6 +219,76 @@ func TestVerifC11View(t *testing.T) {
 						}
 					}
 					res.Class("viewer/" + bname + "/compared")
+				}
+				// Pending reports: the per-program summary must name exactly the labels the uploader left out
+				// (counters and stacks alike) and declare the set excluded exactly when the build is.
+				for _, pr := range pend {
+					for _, pp := range pr.Programs {
+						vb := ref.Build{pp.Program, pp.Version, pp.GoVersion, pp.GOOS, pp.GOARCH}
+						if body == nil {
+							continue
+						}
+						setExcluded := strings.Contains(string(pp.Summary), "No data from this set would be uploaded")
+						if setExcluded == inReport[vb] {
+							fail("viewer-report-set-verdict", "pending report: viewer says data of build %v excluded=%v, uploader put it in the report=%v", vb, setExcluded, inReport[vb])
+						}
+						if !inReport[vb] {
+							continue
+						}
+						excl, labels := map[string]bool{}, map[string]bool{}
+						for n := range pp.Counters {
+							labels[n] = true
+							if !uploaded[fmt.Sprint(vb)+"|"+n] {
+								excl[n] = true
+							}
+						}
+						for n := range pp.Stacks {
+							head, _, _ := strings.Cut(n, "\n")
+							labels[head] = true
+							if !uploaded[fmt.Sprint(vb)+"|"+n] {
+								excl[head] = true
+							}
+						}
+						for l := range labels {
+							listed := strings.Contains(string(pp.Summary), "<code>"+l+"</code>")
+							if listed != excl[l] {
+								fail("viewer-report-summary", "pending report of build %v: summary lists %q as excluded=%v, the uploader left out an item with that name=%v", vb, l, listed, excl[l])
+							}
+						}
+						res.Class("viewer-report/" + bname)
+					}
+				}
+				// Charts: a chart is keyed by the counter name up to ':' or by the stack's head. Data the
+				// uploader sent must never be flagged as absent from the config; for names without buckets
+				// in the approved build the flag must agree with the uploader both ways.
+				if chs != nil && body != nil {
+					upChart := map[string]bool{} // program|chart
+					upProg := map[string]bool{}
+					for k := range uploaded {
+						bld, n, _ := strings.Cut(k, "|")
+						prog := strings.Fields(strings.Trim(bld, "{}"))[0]
+						head, _, isStack := strings.Cut(n, "\n")
+						if !isStack {
+							head, _, _ = strings.Cut(n, ":")
+						}
+						upChart[prog+"|"+head] = true
+						upProg[prog] = true
+					}
+					for _, cp := range chs.Programs {
+						if upProg[cp.Name] && !cp.Active {
+							fail("viewer-chart-program", "chart of program %q flagged as not in the config although the uploader sent its data", cp.Name)
+						}
+						for _, cc := range cp.Counters {
+							up := upChart[cp.Name+"|"+cc.Name]
+							if up && !cc.Active {
+								fail("viewer-chart-verdict", "chart %q of %q flagged as not in the config although the uploader sent data of that name", cc.Name, cp.Name)
+							}
+							if bname == "approved" && cp.Name == zzvC11OK.Program && !zzvC11Bucketed[cc.Name] && cc.Active != up {
+								fail("viewer-chart-verdict", "chart %q of %q: in-config flag=%v, uploader sent data of that name=%v", cc.Name, cp.Name, cc.Active, up)
+							}
+						}
+					}
+					res.Class("viewer-charts/" + bname)
 				}
 				// Hand over to stage 2.
 				if body != nil {
